@@ -467,7 +467,7 @@ func c05DMDamage(r *fw.Rec, d *dmSym, kind int) bool {
 func c05(c *fw.Ctx) {
 	c.Rule("library-written QR symbols of all 160 (version, level) pairs and Data Matrix symbols of all 30 sizes; damage applied as module flips at codeword positions computed by qrref/dmref: per RS block up to t = floor(ec/2) codewords with arbitrary replacement values (all blocks at t, random below t, one block at t, first/last positions incl. the long block's extra byte, fully inverted codewords, the same error value an even number of times, error values chosen so that one or two syndromes of the block stay zero, codewords - the first of a block among them - that read 0x00 or 0xFF afterwards); thorough: every single codeword position of every block; QR format information: every subset of <= 3 of 15 bits of one copy with an independent random <= 3-bit error in the other copy; version information likewise (18 bits, versions >= 7); histories of damaged symbols with many-then-few error-correction codewords per block on ONE decoder instance; oracle: decoded text identical; distinct = distinct (symbol, damage pattern)")
 	c.Assume("qrref.CodewordModules / dmref.CodewordModules give the module positions of every codeword bit (cross-checked by C07/C08: the same functions build the reference symbols that the library reproduces module for module)")
-	reps := c.Pick(1, 4)
+	reps := c.Pick(1, 12)
 	for v := 1; v <= 40; v++ {
 		for _, l := range qrAllLevels {
 			v, l := v, l
@@ -549,7 +549,7 @@ func c05(c *fw.Ctx) {
 		}
 		c.Exhaustive("every single codeword position of every QR (version, level) and every Data Matrix size; all <=3-bit subsets of format (every 8th pair: all 576x2) and version information")
 	}
-	dmReps := c.Pick(2, 8)
+	dmReps := c.Pick(2, 24)
 	for si, s := range dmref.Symbols() {
 		si, s := si, s
 		for rep := 0; rep < dmReps; rep++ {
@@ -597,7 +597,7 @@ func c05(c *fw.Ctx) {
 			}
 		}
 	}
-	nre := c.Pick(40, 600)
+	nre := c.Pick(40, 2000)
 	for i := 0; i < nre; i++ {
 		c.Run(fmt.Sprintf("qr/reuse/%d", i), func(r *fw.Rec) { c05QRReuse(r) })
 		c.Run(fmt.Sprintf("dm/reuse/%d", i), func(r *fw.Rec) { c05DMReuse(r) })
